@@ -135,6 +135,29 @@ let print_state (s : sched) =
       | ELog id -> Printf.printf "EV log %d\n" (int_of_nat id)) (List.rev s.s_events);
   print_string "END\n"
 
+(* ---- printing (C20) ---------------------------------------------------------------------------- *)
+let str () = counted zz
+let ostr () = match next () with "N" -> None | "S" -> Some (str ()) | t -> raise (Parse ("ostr: " ^ t))
+let jobview () =
+  let ty = jobtype () in
+  let mx = zz () in
+  let alias = ostr () in
+  let qn = ostr () in
+  let tn = str () in
+  let code = (match int () with -1 -> None | 0 -> Some false | _ -> Some true) in
+  let dts = str () in
+  let tzn = ostr () in
+  let neg = boolean () in
+  let abss = str () in
+  let att = zz () in
+  let w = str () in
+  let w3 = str () in
+  let due = zz () in
+  { v_type = ty; v_max = mx; v_alias = alias; v_qualname = qn; v_typename = tn; v_code = code;
+    v_dtstr = dts; v_tzname = tzn; v_neg = neg; v_absstr = abss; v_attempts = att; v_weight = w;
+    v_weight3g = w3; v_due = due }
+let print_str (s : z list) = Printf.printf "OUT %s\nEND\n" (zs s)
+
 (* ---- sequential threading scheduler ----------------------------------------------------- *)
 let state : sched option ref = ref None
 let do_line (line : string) =
@@ -153,6 +176,22 @@ let do_line (line : string) =
         | Ok s -> state := Some s; print_string "RES ok none\n"; print_state s
         | Err e -> state := None; Printf.printf "RES err %s\nEND\n" (exn_name e))
      | "RESET" -> state := None; print_string "RESET\n"
+     | "TABLE" ->
+       let ww = boolean () in
+       let has_tz = boolean () in
+       let heading = str () in
+       let jobs = counted jobview in
+       print_str (table ww has_tz heading jobs)
+     | "JOBSTR" ->
+       let ww = boolean () in
+       print_str (job_str ww (jobview ()))
+     | "CUTOFF" ->
+       let s = str () in
+       let w = zz () in
+       let tail = boolean () in
+       (match m_str_cutoff s w tail with
+        | Ok r -> print_str r
+        | Err e -> Printf.printf "ERR %s\nEND\n" (exn_name e))
      | cmd ->
        (match !state with
         | None -> print_string "NOSTATE\nEND\n"
